@@ -234,6 +234,10 @@ func (b *BitMatrix) Rotate180() {
 				b.bits[offset+j] = curbits >> uint(32-shift)
 			}
 		}
+	} else {
+		for i := range b.bits {
+			b.bits[i] = bits.Reverse32(b.bits[i])
+		}
 	}
 }
 
